@@ -23,6 +23,10 @@ def run(ctx):
     cfgs = [(4, 3)] if q else [(5, 2), (5, 3), (6, 1)]
     for turns, eb in cfgs:
         ctx.run_shards(b, ["--turns", str(turns), "--eb", str(eb)], label="server io turns=%d eb=%d" % (turns, eb))
+    # clients created by accept / connect over loopback TCP (the C14 harness): writes and suspend inside onAccepted / onConnected
+    from checks import c14
+    tcp = c14.build_tcp(ctx)
+    ctx.run_shards(tcp, ["--prop", "C13", "--turns", "3", "--reactions", "1" if q else "2"], label="server tcp turns=3 (accepted / connected clients)")
     c = ctx.counters
     cov = {"states": int(c.get("executions", 0)), "transitions": int(c.get("app_actions", 0) + c.get("send_calls", 0)),
            "traces_validated_against_impl": int(c.get("executions", 0)),
@@ -35,7 +39,7 @@ def run(ctx):
                    "Two clients: %d turns over {nothing, write 3 to both / to client 0, both peers / peer 1 write 2, suspend / resume / remove client 1}, every onRead / onWrite "
                    "may suspend, resume or remove the other client (at most %d such reactions), send answers full / would-block / partial 1 with at most %d deviations; a "
                    "descriptor that answered would-block is not writable before time advances, so both clients reach one poll round readable and writable with a backlog; "
-                   "same oracle per client plus no callback after remove()"
+                   "same oracle per client plus no callback after remove(); accepted / connected clients over loopback TCP: 3 turns, write with a partial send and suspend inside onAccepted / onConnected"
                    % (("/".join(str(t) for t, _ in cfgs), "/".join(str(e) for _, e in cfgs)) + (mt, mrb, meb)),
            "executions_with_two_backlogs": int(c.get("executions_with_two_backlogs", 0)), "polls_with_two_ready_clients": int(c.get("polls_with_two_ready_clients", 0)),
            "executions_with_colliding_client_addresses": int(c.get("colliding_client_addresses", 0)),
@@ -46,7 +50,12 @@ def run(ctx):
 def replay(ctx, rp):
     import subprocess
     from engine.driver import ASAN_ENV
-    b = build_multi(ctx) if rp.get("binary", "").startswith("server_multi") else build(ctx)
+    bn = rp.get("binary", "")
+    if bn.startswith("server_tcp"):
+        from checks import c14
+        b = c14.build_tcp(ctx)
+    else:
+        b = build_multi(ctx) if bn.startswith("server_multi") else build(ctx)
     choices = rp["case"].split("choices=")[1].split(" ")[0]
     clean = []; skip = False
     for a in rp.get("args", []):
